@@ -13,7 +13,7 @@ from fractions import Fraction as Fr
 
 from mc.engine import hbfs, par
 from mc.engine.report import Violation
-from mc.engine.seams import Canon, reset_library
+from mc.engine.seams import Canon, reset_library, public_snapshot
 
 import ECAgent.Core as Core
 import ECAgent.Environments as Envs
@@ -136,7 +136,7 @@ def single_world(case):
         env.move_to(a, *p[:nargs])
         if env2.get_agents_at(1, 1, 1 if nargs == 3 else 0, 0) != [b]:
             raise Violation('a query in a second world was disturbed by the world under test')
-        snap = cn(model, a)
+        snap = public_snapshot(model)
         for q in itertools.product(*qv):
             for lw in combos:
                 if only is not None and [list(p), list(q), list(lw)] != only:
@@ -153,7 +153,7 @@ def single_world(case):
                     v.case_only = [list(p), list(q), list(lw)]
                     known = v
                 answers.add((q, lw, bool(got)))
-        if cn(model, a) != snap:
+        if public_snapshot(model) != snap:
             raise Violation(f'queries around agent position {p} changed the model')
     return evals, len(answers), known
 
@@ -192,10 +192,27 @@ def crowd_case(case):
         got = env.get_agents_at(0, 0, 0, 10 ** 6)
         if got != [agents[j] for j in live]:
             raise Violation(f'{n} agents: all-embracing box is not all agents in joining order')
+        # one agent is replaced by a newcomer elsewhere (the population size stays the same), then queried again
+        v = live[len(live) // 3]
+        env.remove_agent(agents[v].id)
+        live.remove(v)
+        newcomer = Core.Agent(f'x{rnd}', model)
+        np_ = pos[(v + 1) % len(pos)]
+        env.add_agent(newcomer, *np_[:nargs])
+        agents.append(newcomer)
+        pos.append(np_)
+        live.append(len(agents) - 1)
+        for i in live:
+            got = env.get_agents_at(pos[i][0], pos[i][1], pos[i][2], 0)
+            exp = [agents[j] for j in live if pos[j] == pos[i]]
+            q += 1
+            if got != exp:
+                raise Violation(f'{n} agents, one replaced by a newcomer: exact-position query at {pos[i]}',
+                                expected=[a.id for a in exp], observed=[a.id for a in got])
         # agents leave from the middle and the front; one re-joins at the end
         for v in (n // 2, 0):
             if v in live:
-                env.remove_agent(f'c{v}')
+                env.remove_agent(agents[v].id)
                 live.remove(v)
         env.add_agent(agents[0], *pos[0][:nargs])
         live.append(0)
@@ -289,7 +306,7 @@ class Population:
         return w.known_now
 
     def ops(self, w):
-        ops = []
+        ops = [['query']]      # reading is an operation too: whatever a query remembers must not show later
         for k in self.keys:
             if k in w.order:
                 ops += [['move', k, d] for d in self.deltas]
@@ -301,6 +318,14 @@ class Population:
 
     def apply(self, w, op):
         w.known_now = None
+        if op[0] == 'query':
+            self.check(w)
+            # the general listing and a shuffle are read as well (and the listing is vandalised by the caller)
+            lst = w.env.get_agents()
+            lst.reverse()
+            del lst[:1]
+            w.env.shuffle()
+            return
         a = w.agents[op[1]]
         if op[0] == 'add':
             w.env.add_agent(a, *op[2][:self.nargs])
@@ -318,7 +343,7 @@ class Population:
                 w.by[1:]:
             raise Violation('queries in a bystander world are disturbed by the world under test')
         res = [(k, w.agents[k][PC].xyz()) for k in w.order]
-        before = self.cn(w.model, [w.agents[k] for k in self.keys])
+        before = public_snapshot(w.model)
         answers = []
         for q, lw in self.queries:
             got = w.env.get_agents_at(q[0], q[1], q[2], lw[0], lw[1], lw[2], lw[3])
@@ -335,7 +360,7 @@ class Population:
             if v is not None and w.known_now is None:
                 w.known_now = v
             answers.append(tuple(ids))
-        if self.cn(w.model, [w.agents[k] for k in self.keys]) != before:
+        if public_snapshot(w.model) != before:
             raise Violation('positional queries changed the model')
         w.last = tuple(answers)
 
@@ -362,7 +387,7 @@ def run(ctx):
     par.pmap(ctx, single_fn, cases, procs=ctx.procs)
     ctx.leg('single', worlds=len(cases), full_lattice=full)
     extra = [{'leg': 'crowd', 'world': wn, 'n': n} for wn in ('space4x3x0', 'space4x3x2', 'grid4x3', 'disc4x3x2')
-             for n in ((70,) if not full else (70, 150))]
+             for n in ((3, 70) if not full else (3, 10, 70, 150))]
     extra += [{'leg': 'replaced_world', 'new': nw, 'via': via} for nw in ('space', 'grid') for via in ('set', 'assign')]
     for case in extra:
         if ctx.violations:
